@@ -22,9 +22,11 @@ META = {
     "level_text": "The verdict for each program comes from TLC evaluating the explicit typing rules of AldorTypes.tla, not from the mutation "
                   "catalogue: every eligible site of every base program receives every catalogue fault (wrong argument type, wrong count, "
                   "undefined name, assignment to a constant, wrong return type) plus type-preserving control mutations that must stay accepted.",
-    "level_note": "Trusted: the typing rules of AldorTypes.tla cover the generated family only (no domains/categories yet: 'missing export' and "
-                  "'operation not in category' faults are not planted); renderer. Driver-level invariants on the H3 trace are added when the "
-                  "hooks are in the tree.",
+    "level_note": "Trusted: the typing rules of AldorTypes.tla (they cover the generated family only: scalars, lists, arrays, records, unions, "
+                  "closures, generators, overloading with resolution, macros, categories and (parametrised) domains, domains with a private "
+                  "representation, several values at once, collect forms, loop filters, default and keyword arguments, exceptions with "
+                  "values, where expressions); the renderer. A position reported in an included file (expansion of a library macro) counts "
+                  "as a position.",
 }
 
 
